@@ -684,7 +684,10 @@ func runPair(t *testing.T, c *Case, o RunOpts) *Result {
 		return &Result{ToolErr: err.Error()}
 	}
 	n := len(pp.Seq) + len(pp.Feat)
-	return execSim(t, c, o, 200000, true, func(sim *simrt.Sim) func() {
+	// race monitor on: the format packages are woven, so unsynchronised
+	// package-level state shared by independent instances is reported
+	// whatever the interleaving
+	return execSim(t, c, o, 400000, false, func(sim *simrt.Sim) func() {
 		yield := func() { sim.Yield("medium") }
 		for i := range pp.Seq {
 			pl := &pp.Seq[i]
